@@ -314,6 +314,25 @@ EXTRA = {
     "C01": " gen_spec_set_sampling_period (GenFwd): a specification-level set_sampling_period reaches the offline interpreter of an "
            "object that also owns an online one.",
 }
+EXTRA2 = {
+    "C01": " evaluate(dataset) of the offline interpreter is translated as a whole method (set_variable_to_ast_from_dataset, visitAst over all "
+           "assertions, the value of the last one zipped with the time column, the gap loop; method resolution along the MRO pinned): "
+           "genOffEval_evaluate, and C01_evaluate_translated states C01 - one [t, rho] pair per sample - on the run of the translated method.",
+    "C02": " update(timestamp, dataset) of the online interpreter is translated as a whole method (the rows of the data set, the update "
+           "visitor, the value of the last assertion, the clock): genGlue_update, genGlue_update_run, genGlue_update_program (a run of "
+           "translated updates on the dictionary set_ast builds = the mirror program the refinement theorems are about).",
+    "C10": " reset() of the discrete online interpreter as a whole method: genGlue_reset_whole / _init (reset visitor over all assertions, "
+           "the clock attributes, every free variable back to its initial value).",
+    "C13": " genGlue_update_program / genOffEval_evaluate: the counter after a run of translated update() calls is onlineCounter, after a "
+           "translated evaluate() offlineCounter; gen_interp_set_sampling_period (the translated interpreter-level method assigns period, "
+           "unit, tolerance; rejects a tolerance outside [0,1]).",
+    "C17": " genGlue_set_vars (rows naming no free variable are ignored, in any order; later rows win), genOffEval_no_ast.",
+    "C20": " Explanations.__setitem__, explain() of both explainer classes and spec.explain() are translated (GenExplDrv): "
+           "genExplDrv_setitem, genExplDrv_explain, and C20_sufficient_translated_driver_partial states the sufficiency on the run of the "
+           "translated driver (which explains the assertion whose value evaluate() returns, after the repair of F61).",
+}
+for _p, _t in EXTRA2.items():
+    EXTRA[_p] = EXTRA.get(_p, "") + _t
 for _p, _t in EXTRA.items():
     CLAIMED[_p]["text"] = CLAIMED[_p]["text"] + _t
 
